@@ -36,9 +36,12 @@ def _proj(x, depth=0):
     if hasattr(x, '__next__') or (hasattr(x, '__iter__') and not isinstance(x, (str, bytes))):
         return [_proj(v, depth + 1) for v in x]
     try:
-        return P.enc(x)
+        e = P.enc(x)
+        if isinstance(e, list) and e and e[0] == 'o':
+            return {'object': type(x).__name__}          # (an interface object: its class, not its address)
+        return e
     except Exception:
-        return repr(x)
+        return {'object': type(x).__name__}
 
 
 def _call(fn, obj):
@@ -234,6 +237,22 @@ def frame_pair(rng):
     return stale, fresh, _frame_methods(cols, hier), {'kind': 'FrameGO:' + ('hier' if hier else 'flat'), 'labels': [P.enc(c) for c in cols], 'history': hist}
 
 
+AUTO_SKIP = {'append', 'extend', 'extend_items', 'mloc', 'memory', 'interface', 'to_clipboard', 'to_hdf5', 'to_parquet', 'to_arrow', 'to_xarray', 'to_pandas', 'to_xlsx', 'to_sqlite',
+             'to_html_datatables', 'to_npz', 'to_npy', 'to_msgpack', 'to_pickle', 'to_csv', 'to_tsv', 'to_delimited', 'to_latex', 'to_html', 'to_markdown', 'to_rst', 'to_json', 'sample'}
+
+
+def _auto_methods(obj):
+    '''every public attribute of the class, read (and called without arguments when callable; iterators are run): found, not listed'''
+    def mk(name):
+        def fn(o):
+            v = getattr(o, name)
+            if callable(v) and not isinstance(v, type):
+                v = v()
+            return v
+        return fn
+    return {'auto:' + a: mk(a) for a in dir(obj) if not a.startswith('_') and a not in AUTO_SKIP}
+
+
 def events(rng, n, kinds):
     '''n twin events over the given pair builders; each: one method, called on the grown container first'''
     out = []
@@ -244,6 +263,8 @@ def events(rng, n, kinds):
         except Exception as e:
             out.append({'kind': 'twin', 'what': 'history_raised', 'info': {'builder': mk.__name__}, 'stale': json.dumps({'err': P.err_category(e), 'msg': str(e)[:80]}), 'fresh': '"built"'})
             continue
+        if rng.random() < 0.35:
+            methods = _auto_methods(fresh)
         name = rng.choice(sorted(methods))
         fn = methods[name]
         a = _call(fn, stale)
